@@ -6,7 +6,10 @@ from runner import Script, Cfg
 from props import c09
 
 ID = "C08"
-THEOREMS = ["C08_interference_free", "C08_non_tcp_history_irrelevant", "C08_refuted_on_collision"]
+THEOREMS = ["C08_interference_free", "C08_non_tcp_history_irrelevant", "C08_refuted_on_collision",
+            "ClockIndep.ClockIndep_state", "ClockIndep.ClockIndep_frame", "ClockIndep.ClockIndep_frame_norm",
+            "ClockIndep.ClockIndep_history", "ClockIndep.ClockIndep_history_masked", "ClockIndep.ClockIndep_clocks_nonvacuous",
+            "ClockIndep.ClockIndep_state_unconditional_refuted"]
 MONITORS = []
 KEEP_LAST = True
 RULE = ("histories mixing handshakes of several flows, wrong-ack data, SYN floods, FIN/RST/ACK and UDP/ICMP/ARP noise, "
@@ -148,8 +151,7 @@ def mask(o):
     runs of a metamorphic pair may straddle a second boundary (the checksum over the Date is compared as 'valid')"""
     if o.kind != "R":
         return (o.kind,)
-    n = net.norm_frame(o.reply)
-    return ("R",) + tuple(runner.mask_app(x) if isinstance(x, (bytes, bytearray)) else x for x in n)
+    return ("R",) + net.norm_frame(o.reply, runner.mask_app)
 
 
 def own_bits(scripts):
